@@ -826,9 +826,9 @@ func genValidate(emit func(string), tier string, rng *Rng) {
 		}
 	}
 	// --- h. random mixtures: sequences of messages with random fields, developer fields, resets
-	nr := 3000
+	nr := 12000
 	if thorough {
-		nr = 60000
+		nr = 200000
 	}
 	for it := 0; it < nr; it++ {
 		var msgs []proto.Message
@@ -937,9 +937,9 @@ func genProtoValidate(emit func(string), tier string, rng *Rng) {
 			emit(fmt.Sprintf("pvalidatedef v:%02x dev:%d bts:", v, nd))
 		}
 	}
-	n := 4000
+	n := 20000
 	if tier == "thorough" {
-		n = 80000
+		n = 300000
 	}
 	for i := 0; i < n; i++ {
 		m := proto.Message{Num: typedef.MesgNum(rng.Intn(300))}
